@@ -96,6 +96,10 @@ func (e *Engine) assumeSentinels(st *State) {
 
 func (e *Engine) verifyFunction(fn *ssa.Function, ct *Contract) {
 	e.curFn, e.curC = fn, ct
+	// fresh names restart for every function (the axioms were named once, before any function, below this number):
+	// the queries of one function do not depend on which functions were verified before it in the same run
+	e.axiomTexts()
+	freshCtr = 100000
 	st, fr, vars := e.initState(fn)
 	pkg := fn.Package()
 	if pkg == nil && fn.Parent() != nil {
@@ -277,12 +281,9 @@ func (e *Engine) queryPrefixOpt(st *State, dropQuant bool) string {
 	var b strings.Builder
 	e.axiomTexts() // registers the string literals the axioms mention before literals are declared
 	b.WriteString(preamble)
-	for _, d := range e.reg.decls {
-		b.WriteString(d)
-		b.WriteByte('\n')
-	}
+	b.WriteString(declMarker + "\n")
 	b.WriteString(e.specDecls())
-	b.WriteString(e.reg.litDecls())
+	b.WriteString(litMarker + "\n")
 	for _, d := range st.decls {
 		b.WriteString(d)
 		b.WriteByte('\n')
@@ -796,7 +797,18 @@ func hasTag(tags []string, t string) bool {
 const axiomMarker = ";;AXIOMS;;"
 
 // finishQuery inserts the relevant axioms (decided on the whole query text, goal included).
+const litMarker = ";;LITERALS;;"
+const declMarker = ";;STRUCTS;;"
+
+// finishQuery inserts the relevant axioms and then the declarations of exactly the string literals the query mentions.
 func (e *Engine) finishQuery(q string, dropQuant bool) string {
+	litReg = e.reg
+	return e.finishQuery0(q, dropQuant) // the literal marker is resolved when the query is written (solve.go)
+}
+
+var litReg *SortReg
+
+func (e *Engine) finishQuery0(q string, dropQuant bool) string {
 	var ax strings.Builder
 	if e.curC != nil && e.curC.Opts["axioms"] == "none" || e.noAxioms {
 		return strings.Replace(q, axiomMarker+"\n", "", 1)
